@@ -4,7 +4,8 @@ set -e
 cd "$(dirname "$0")"
 export CARGO_NET_OFFLINE=true
 mkdir -p .work/tmp .work/cases evidence replays
-( cd coq && coq_makefile -f _CoqProject -o Makefile >/dev/null && timeout 7200 make -j16 )
-cp /repo/Cargo.lock harness/Cargo.lock
+python3 -c "import sys; sys.path.insert(0, 'runner'); import lib; lib.coq_makefile()"
+( cd coq && timeout 7200 make -j16 )
+cp ../repo/Cargo.lock harness/Cargo.lock
 ( cd harness && timeout 3600 cargo build --offline )
 echo "setup ok"
